@@ -24,6 +24,7 @@ type latticeCfg struct {
 	Protocol   string // tcp | websocket | kcp | quic
 	Mux        bool
 	Scopes     bool
+	Auth       string // "" = shared token | empty = token method without a token on either side | oidc = OIDC, no token either
 	PoolCount  int
 	TLS        bool
 	CustomByte bool
@@ -88,6 +89,9 @@ func genLattice(idx int, rng *rand.Rand) latticeCfg {
 	if run.Thorough() && rng.Intn(6) == 0 {
 		l.PayloadKiB = 256
 	}
+	// configurations without any shared token: the control cipher and the per-proxy encryption are
+	// then keyed from the empty string, and must still be there
+	l.Auth = []string{"", "", "empty", "oidc"}[rng.Intn(4)]
 	return l
 }
 
@@ -295,7 +299,7 @@ func latticeCase(c *h.Case) {
 	rng := c.Rng
 	l := genLattice(c.Idx, rng)
 	c.Data["kind"], c.Data["cfg"] = "lattice", l
-	ps, err := serverFor(srvKey{Mode: l.SrvMode, Cert: l.SrvCert, Mux: l.Mux, Scopes: l.Scopes})
+	ps, err := serverFor(srvKey{Mode: l.SrvMode, Cert: l.SrvCert, Mux: l.Mux, Scopes: l.Scopes, Auth: l.Auth})
 	if err != nil {
 		run.Inconclusive("lattice: server did not start: " + err.Error())
 		return
@@ -407,7 +411,7 @@ func latticeCase(c *h.Case) {
 		return fmt.Sprintf("transport.useEncryption = %v\ntransport.useCompression = %v\n", enc, comp)
 	}
 	var sb strings.Builder
-	sb.WriteString(clientCommonTOML(pRelayP, ps.Token, userP, l.Protocol, l.Mux, l.Scopes, l.PoolCount, ct, false))
+	sb.WriteString(clientCommonTOML(pRelayP, ps.clientAuth(), userP, l.Protocol, l.Mux, l.Scopes, l.PoolCount, ct, false))
 	fmt.Fprintf(&sb, "metadatas = { mk = \"%s\" }\n", metaP)
 	fmt.Fprintf(&sb, "\n[[proxies]]\nname = \"%s\"\ntype = \"tcp\"\nlocalIP = \"127.0.0.1\"\nlocalPort = %d\nremotePort = %d\nmetadatas = { pm = \"%s\" }\n%s", nTCP, pBeTCP, pTCP, pmeta, tr(l.TCPEnc, l.TCPComp))
 	fmt.Fprintf(&sb, "\n[[proxies]]\nname = \"%s\"\ntype = \"http\"\nlocalIP = \"127.0.0.1\"\nlocalPort = %d\ncustomDomains = [\"%s\"]\n%s", nWeb, pBeHTTP, domWeb, tr(l.WebEnc, l.WebComp))
@@ -419,7 +423,7 @@ func latticeCase(c *h.Case) {
 	fmt.Fprintf(&sb, "\n[[proxies]]\nname = \"%s\"\ntype = \"tcpmux\"\nmultiplexer = \"httpconnect\"\nlocalIP = \"127.0.0.1\"\nlocalPort = %d\ncustomDomains = [\"%s\"]\nhttpUser = \"%s\"\nhttpPassword = \"%s\"\n", nTMux, pBeTCP, domTMux, httpUser, pwTMux)
 	cfgP := sb.String()
 	sb.Reset()
-	sb.WriteString(clientCommonTOML(pRelayV, ps.Token, userV, l.Protocol, l.Mux, l.Scopes, 0, ct, false))
+	sb.WriteString(clientCommonTOML(pRelayV, ps.clientAuth(), userV, l.Protocol, l.Mux, l.Scopes, 0, ct, false))
 	fmt.Fprintf(&sb, "metadatas = { mk = \"%s\" }\n", metaV)
 	fmt.Fprintf(&sb, "\n[[visitors]]\nname = \"%s\"\ntype = \"stcp\"\nserverUser = \"%s\"\nserverName = \"%s\"\nsecretKey = \"%s\"\nbindAddr = \"127.0.0.1\"\nbindPort = %d\n%s", nVis, userP, nSTCP, skSTCP, pVis, tr(l.VisEnc, l.VisComp))
 	cfgV := sb.String()
@@ -589,6 +593,9 @@ func latticeCase(c *h.Case) {
 
 	// rule 1: secrets never, in any configuration, on either path
 	for _, s := range secrets {
+		if s.M == "" {
+			continue // no shared token in this configuration
+		}
 		absent(s.Key, s.What, s.M, "P", "V")
 	}
 
